@@ -553,7 +553,12 @@ func ZZ_C04_labelsDespiteStaleCanaryNode() {
 	ds.Status.State = datadoghqv1alpha1.ExtendedDaemonSetStatusStateCanary
 	// the canary may have been paused right after these pods were created (by the user, or by the replica
 	// set's own condition): it is still the canary, its pods are still labelled
-	switch nondet.String("canaryPaused", "no", "by-annotation", "by-condition") {
+	// ... or marked failed a moment ago (kubectl-eds canary fail, or an earlier sync): until the ExtendedDaemonSet
+	// controller rolls back it is still the canary
+	switch nondet.String("canaryPaused", "no", "by-annotation", "by-condition", "just-failed") {
+	case "just-failed":
+		at := metav1.NewTime(nondet.Base().Add(-10 * time.Second))
+		rsNew.Status.Conditions = append(rsNew.Status.Conditions, datadoghqv1alpha1.ExtendedDaemonSetReplicaSetCondition{Type: datadoghqv1alpha1.ConditionTypeCanaryFailed, Status: corev1.ConditionTrue, Reason: "ManuallyFailed", LastTransitionTime: at, LastUpdateTime: at})
 	case "by-annotation":
 		ds.Annotations[datadoghqv1alpha1.ExtendedDaemonSetCanaryPausedAnnotationKey] = "true"
 		ds.Status.State = datadoghqv1alpha1.ExtendedDaemonSetStatusStateCanaryPaused
